@@ -602,4 +602,68 @@ def gateDecomposeH (h : Heap) (a : Nat) (t : Tmpl) : Heap × List (Nat × List N
     (seq.foldl (fun hh c => flipAt hh c.1) h1, seq.reverse)
   else (h1, seq)
 
+/-! ### `Gate.merge` / `Channel.merge` (used by the optimiser): "merge may return a newly created object, or
+self, or other, but it must never modify self or other" -/
+
+inductive MergeRes
+  | identity            -- `None`: the two operations cancel
+  | merged (addr : Nat) -- address of the returned object
+  | failure             -- MergeFailure
+  | unmodelled          -- parameter arithmetic outside the affine fragment
+deriving DecidableEq, Repr
+
+/-- `x + y` inside the affine fragment -/
+def Par.add : Par → Par → Option Par
+  | .num a, .num b => some (.num (a.add b))
+  | .num a, .sym x k c => some (.sym x k (c.add a))
+  | .sym x k c, .num b => some (.sym x k (c.add b))
+  | .sym x k c, .sym y k' c' =>
+    if x = y then (if k + k' = 0 then some (.num (c.add c')) else some (.sym x (k + k') (c.add c'))) else none
+
+/-- `np.dot(other.p[0], self.p[0])` for numeric transmissivities -/
+def Par.mulNum : Par → Par → Option Par
+  | .num a, .num b => if a.p = 0 ∧ b.p = 0 then some (.num ⟨a.r * b.r, 0⟩) else none
+  | _, _ => none
+
+/-- `Gate.merge(self = a, other = b)` (`inPlace = false`: the code; `true`: the defective variant that writes
+the new first parameter into the shallow copy's — shared — list) -/
+def gateMergeH (inPlace : Bool) (h : Heap) (a b : Nat) : Heap × MergeRes :=
+  match h.ops[a]?, h.ops[b]? with
+  | some oa, some ob =>
+    if oa.cls ≠ ob.cls then (h, .failure) else
+    match h.pls[oa.pl]?, h.pls[ob.pl]? with
+    | some (pa :: ra), some (pb :: rb) =>
+      if ra ≠ rb then (h, .failure) else
+      match pa.add (if oa.dagger = ob.dagger then pb else pb.neg) with
+      | none => (h, .unmodelled)
+      | some p0 =>
+        if p0.isZero then (h, .identity)
+        else if inPlace then
+          ({ ops := h.ops ++ [oa], pls := h.pls.set oa.pl (p0 :: ra) }, .merged h.ops.length)
+        else
+          -- temp = copy.copy(self); temp.p = [p0] + self.p[1:]
+          ({ ops := h.ops ++ [{ oa with pl := h.pls.length }], pls := h.pls ++ [p0 :: ra] }, .merged h.ops.length)
+    | _, _ => (h, .unmodelled)
+  | _, _ => (h, .unmodelled)
+
+/-- `Channel.merge(self = a, other = b)`: same classes, equal `p[1:]`, `T = other.p[0] * self.p[0]`, the
+identity if `T = 1` -/
+def channelMergeH (inPlace : Bool) (h : Heap) (a b : Nat) : Heap × MergeRes :=
+  match h.ops[a]?, h.ops[b]? with
+  | some oa, some ob =>
+    if oa.cls ≠ ob.cls then (h, .failure) else
+    match h.pls[oa.pl]?, h.pls[ob.pl]? with
+    | some (pa :: ra), some (pb :: rb) =>
+      if ra ≠ rb then (h, .failure) else
+      match pb.mulNum pa with
+      | none => (h, .unmodelled)
+      | some T =>
+        if T = .num ⟨1, 0⟩ then (h, .identity)
+        else if inPlace then
+          ({ ops := h.ops ++ [oa], pls := h.pls.set oa.pl (T :: ra) }, .merged h.ops.length)
+        else
+          ({ ops := h.ops ++ [{ oa with pl := h.pls.length }], pls := h.pls ++ [T :: ra] }, .merged h.ops.length)
+    | _, _ => (h, .unmodelled)
+  | _, _ => (h, .unmodelled)
+
 end SFV.Eng
